@@ -69,7 +69,7 @@ func init() {
 		},
 		assumptions: append(append([]string{}, stdAssumptions...), "strconv Format/Parse of SYMBOLIC integers are summarised by the round-trip contract (stub S-STRCONV); concrete integers run the real strconv code"),
 		explanation: "symbolic execution of the real raw-protocol Pack/Unpack code (go/ssa rebuilt from /repo) with symbolic field contents and solver-chosen short-read positions; each vxAssert is an SMT query (unsat = holds for all values of the symbolic bytes within the shape)",
-		bounds:      "raw protocol in depth; json protocol (gjson interpreted) with one symbolic text field of <= 2 bytes per instance; websocket protobuf sub-protocol (gogo-generated code interpreted) with symbolic seq/mtype/codec/method/meta/body; websocket json sub-protocol on concrete fields (frame built with fmt.Sprintf); thrift binary protocol (apache thrift THeader code interpreted) with one symbolic field of <= 2 bytes or a symbolic seq per instance; thrift struct protocol likewise with a hand-written TStruct body, two frames back to back; http-style protocol: request + OK response with symbolic seq or body (error responses carry the status as encoding/json text: outside); pbproto not covered here; raw: method<=3 bytes, body<=4, meta<=3 pairs of <=2-byte key/value, status msg/cause<=2 bytes, seq symbolic int32 or samples incl. extremes, two frames with <=2 short reads at any offset, transfer pipes of <=3 filters",
+		bounds:      "raw protocol in depth; json protocol (gjson interpreted) with one symbolic text field of <= 2 bytes per instance; websocket protobuf sub-protocol (gogo-generated code interpreted) with symbolic seq/mtype/codec/method/meta/body; websocket json sub-protocol on concrete fields (frame built with fmt.Sprintf); thrift binary protocol (apache thrift THeader code interpreted) with one symbolic field of <= 2 bytes or a symbolic seq per instance; thrift struct protocol likewise with a hand-written TStruct body, two frames back to back; http-style protocol: request + OK response with symbolic seq or body (error responses carry the status as encoding/json text: outside); pbproto not covered here; raw: method<=3 bytes, body<=4, meta<=3 pairs of <=2-byte key/value, status msg/cause<=2 bytes, seq symbolic int32 or samples incl. extremes, two frames with <=2 short reads at any offset, transfer pipes of <=3 filters; also: a reset message reused for a second frame, three frames decoded into retained messages (raw/json/thrift), status text and metadata of 255/256/300/700/65000 bytes (concrete content, one symbolic byte), thrift binary + struct protocols, http-style protocol (request + OK response; gzip-filtered OK and error responses with concrete statuses)",
 	})
 	registerCheck(&checkSpec{
 		id:    "C06",
@@ -112,7 +112,7 @@ func init() {
 		},
 		assumptions: stdAssumptions,
 		explanation: "the real raw-protocol Unpack is executed on a fully symbolic byte stream (every byte a solver variable) of each listed length followed by EOF; the engine checks every make([]byte,n) reached against the configured limit (n is a solver term), termination (instruction budget = unwinding assertion), and that a well-formed frame still decodes afterwards",
-		bounds:      "raw protocol parser on streams <= 8 (quick) / 10 (thorough) bytes, limit 24; session read loop on <= 5 (quick) / 7 (thorough) arbitrary bytes and on well-framed messages with <= 3 arbitrary bytes in one field; json protocol parser on <= 6/8 bytes; http protocol: response with symbolic 7-8 digit Content-Length and <= 4-6 arbitrary bytes after the method prefix; thrift binary protocol: one oversize frame (limit 8 KiB); pb parser and arbitrary bytes into thrift not covered",
+		bounds:      "raw protocol parser on streams <= 8 (quick) / 10 (thorough) bytes, limit 24; session read loop on <= 5 (quick) / 7 (thorough) arbitrary bytes and on well-framed messages with <= 3 arbitrary bytes in one field; json protocol parser on <= 6/8 bytes; http protocol: response with symbolic 7-8 digit Content-Length and <= 4-6 arbitrary bytes after the method prefix; thrift binary protocol: one oversize frame (limit 8 KiB); pb parser and arbitrary bytes into thrift not covered; also: a REPLY to a pending typed call with an arbitrary body-codec byte, an arbitrary message-type byte, two sessions decoding at overlapping times after a refused oversize frame",
 	})
 	registerCheck(&checkSpec{
 		id:    "C12",
@@ -137,7 +137,7 @@ func init() {
 		},
 		assumptions: append(append([]string{}, stdAssumptions...), "filters are three harness-defined invertible, mutually non-commuting filters plus the shipped md5 integrity filter with crypto/md5 as an uninterpreted collision-free function (equal digests imply equal inputs; both content and checksum altered consistently is outside the claim); gzip internals outside reach"),
 		explanation: "the real xfer.XferPipe (Append/IDs/OnPack/OnUnpack/check) and the raw protocol's pipe transport are executed symbolically; pipe = solver-chosen sequence of filter ids, payload symbolic",
-		bounds:      "pipes of length <= 2 (quick) / 4 (thorough) over 3 filters with repeats, payload <= 4 bytes, 255/256 boundary concrete",
+		bounds:      "pipes of length <= 2 (quick) / 4 (thorough) over 3 filters with repeats, payload <= 4 bytes, 255/256 boundary concrete; also: pipes of 127/128/254/255 filters on the wire followed by a second frame; the md5 filter inside pipes of 1-2 integrity stages with the payload cut at every length; the shipped gzip filter (real compress/gzip interpreted, concrete payloads of 64-300 bytes) in pipes of up to 3 gzip stages",
 	})
 	registerCheck(&checkSpec{
 		id:    "C20",
@@ -160,7 +160,7 @@ func init() {
 		},
 		assumptions: append(append([]string{}, stdAssumptions...), "sync.Pool hands back the most recently released object (the case the property is about); Pool's own behaviour is outside the claim"),
 		explanation: "differential symbolic execution: an object dirtied with symbolic field values is released, re-acquired from the pool and compared field by field and by its packed bytes with a freshly constructed one, before and after a solver-chosen next use",
-		bounds:      "message, utils.Args, xfer.XferPipe, utils.ByteBuffer, and handler contexts recycled between two requests of one session (first request ok / status / panic); pooled sockets not covered; dirty strings <= 2 bytes, <= 2 metadata pairs, next-use wire input <= 3 bytes",
+		bounds:      "message, utils.Args, xfer.XferPipe, utils.ByteBuffer, and handler contexts recycled between two requests of one session (first request ok / status / panic); pooled sockets not covered; dirty strings <= 2 bytes, <= 2 metadata pairs, next-use wire input <= 3 bytes; also: pooled sockets (id, swap, buffered input, use after Close), pre-session PreCall/PreSend/PreReply with failing writes, contexts recycled after failing requests, message sequences of 3 (quick) / 4 (thorough) solver-chosen kinds under LIFO pools",
 	})
 	registerCheck(&checkSpec{
 		id:    "C03",
@@ -215,7 +215,7 @@ func init() {
 		},
 		assumptions: append(append([]string{}, stdAssumptions...), "handlers are installed through SubRouter.reg with a harness HandlersMaker (reflection-based controller extraction not executed)", "scripted in-memory net.Conn (stub S-CONN); goroutine pool = plain spawn; spawned handler runs when the reader blocks"),
 		explanation: "the real read loop, binding, routing, plugin stages, handler dispatch, reply construction and session.write are executed symbolically for one received frame with symbolic type/seq/body/plugin and handler statuses; handler outcome, vetoing stage, route kind and transport failure are enumerated shape parameters",
-		bounds:      "one frame per path; body <= 2 bytes; raw protocol; plain-bytes bodies; timeouts (context/session age) disabled",
+		bounds:      "one frame per path; body <= 2 bytes; raw protocol; plain-bytes bodies; timeouts (context/session age) disabled; also: two frames handled concurrently, a hook of each of 5 stages panicking, reply-side hook vetoes, panics carrying a *Status, a write abandoned while queued behind a stuck reply write (context cancellation), session histories of 4 (quick) / 5 (thorough) solver-chosen events",
 	})
 	c02jobs := func(tier string) []job {
 		var js []job
@@ -252,7 +252,7 @@ func init() {
 		id: "C02", dirs: []string{".", "proto/httproto"}, level: "other", jobs: c02jobs,
 		assumptions: append(append([]string{}, stdAssumptions...), "scripted in-memory net.Conn (stub S-CONN); the remote peer's reply is an arbitrary well-framed raw-protocol frame (symbolic seq/status/codec/body) or a truncation of one; library body codecs (json/xml/form/protobuf/thrift) excluded"),
 		explanation: "the real AsyncCall, read loop, bindReply/handleReply, readDisconnected and callCmd.done/cancel are executed symbolically with two pending calls, one hostile reply frame and connection loss; completion is observed through Done() and the completion channel; a goroutine left blocked is a violation",
-		bounds:      "2 pending calls, 1 reply frame (whole or cut at listed byte offsets), then EOF; reply body <= 2 bytes; sequential schedule (spawned handler runs when the reader blocks)",
+		bounds:      "2 pending calls, 1 reply frame (whole or cut at listed byte offsets), then EOF; reply body <= 2 bytes; sequential schedule (spawned handler runs when the reader blocks); also: reply processed before the transport write returns, reply and loss arriving together (incl. all schedules with 1 pre-emption), loss while a call is being launched, malformed 299 reply over the http-style protocol, session histories of 4 (quick) / 6 (thorough) solver-chosen events",
 	})
 	rootAssume := append(append([]string{}, stdAssumptions...), "scripted in-memory net.Conn (stub S-CONN); goroutine pool = plain spawn; handlers installed through SubRouter.reg with a harness HandlersMaker", "schedules: deterministic run-to-block order plus the interleavings scripted by the harness (handler blocked / Close in progress / reader at EOF); not all interleavings")
 	registerCheck(&checkSpec{
@@ -270,7 +270,7 @@ func init() {
 		},
 		assumptions: rootAssume,
 		explanation: "the real Close/closeLocked, wait groups, read loop, readDisconnected, handleCall/writeReply and session.write are executed with a handler that is entered and blocked, a local Close in progress and (variant) the reader reaching EOF meanwhile; the order of the reply write and the socket close is observed on the scripted connection",
-		bounds:      "1 in-flight handler, 1 outstanding call, scripted interleavings (3 variants); handler durations finite",
+		bounds:      "1 in-flight handler, 1 outstanding call, scripted interleavings (3 variants); handler durations finite; also: two outstanding calls answered one by one during Close, a handler that pushes or awaits a nested reply during Close, overlapping Close calls (session/session, peer/session), Close waiting while the connection is lost, session histories of 4 (quick) / 6 (thorough) events",
 	})
 	registerCheck(&checkSpec{
 		id: "C01", dirs: []string{"socket", "."}, level: "other",
@@ -293,7 +293,7 @@ func init() {
 		},
 		assumptions: rootAssume,
 		explanation: "non-interference decomposed: (a) reply correlation by sequence number with two pending calls and a symbolic reply (real bindReply/handleReply), (b) a received body is not aliased to the pooled receive buffer of later frames (real raw Unpack, pooled buffers reused), (c) the handler sees exactly the frame's body and the reply carries the handler's result (real handle/handleCall), (d) recycled messages carry nothing over",
-		bounds:      "2 pending calls, 2 frames, body <= 3 bytes; concurrency of writers and sequence allocation not yet covered (sequential schedules)",
+		bounds:      "2 pending calls, 2 frames, body <= 3 bytes; concurrency of writers and sequence allocation not yet covered (sequential schedules); also: requests over recycled contexts on the same / another session (CALL and PUSH), overlapping invocations of one struct controller built by the real RouteCall, two sessions with equal pending sequence numbers, message sequences of 3/4 solver-chosen kinds",
 	})
 	registerCheck(&checkSpec{
 		id: "C04", dirs: []string{"socket", ".", "proto/jsonproto", "proto/thriftproto", "proto/httproto", "mixer/websocket/pbSubProto", "mixer/websocket/jsonSubProto"}, level: "other",
@@ -318,7 +318,7 @@ func init() {
 		},
 		assumptions: rootAssume,
 		explanation: "three links on real code: server side (status of the reply as a function of handler outcome / framework rule), raw wire (status round trip, shared with C05), client side (callCmd status from the reply's status and the decode result); statuses symbolic",
-		bounds:      "wire link over raw, json, thrift-binary (incl. four replies in sequence on one connection) and the two websocket sub-protocols; server/client links over raw; library body codecs excluded (decode failure is produced by an unregistered codec id or the nil codec)",
+		bounds:      "wire link over raw, json, thrift-binary (incl. four replies in sequence on one connection) and the two websocket sub-protocols; server/client links over raw; library body codecs excluded (decode failure is produced by an unregistered codec id or the nil codec); also: the http-style protocol with gzip, long statuses on the raw wire, panics carrying a *Status, reply-side vetoes, message sequences of 3/4 kinds",
 	})
 	c19jobs := func(tier string) []job {
 		var js []job
@@ -340,7 +340,7 @@ func init() {
 		id: "C19", dirs: []string{"plugin/proxy"}, level: "other", jobs: c19jobs,
 		assumptions: append(append([]string{}, rootAssume...), "the backend is played at wire level by the harness on a scripted connection of a real client session (the forwarder is a real erpc.Session)"),
 		explanation: "real proxy.call/push, PostNewPeer, unknown-handler binding, handleCall, and a real forwarding session are executed; the forwarded frame and the reply to the caller are parsed from the scripted connections and compared with the request / the backend's reply (symbolic body, status code, metadata values)",
-		bounds:      "body <= 3 bytes, one extra metadata pair each way, status code any int32, backend OK / error / closed",
+		bounds:      "body <= 3 bytes, one extra metadata pair each way, status code any int32, backend OK / error / closed; also: reply bodies shorter/longer than the request incl. empty, sequences of 3 (quick) / 4 (thorough) proxied calls with solver-chosen backend outcomes",
 	})
 	registerCheck(&checkSpec{
 		id: "C15", dirs: []string{".", "plugin/proxy"}, level: "other",
@@ -359,7 +359,7 @@ func init() {
 		},
 		assumptions: rootAssume,
 		explanation: "every predefined status is snapshotted before and compared after the operation in each harness of the failure paths (connection loss with and without read error, cancelled calls, 404/400/500/405 replies, write failures, proxy failures): any in-place change of a shared status is an assertion failure",
-		bounds:      "one failing operation per path from the post-initialisation state; user plugins excluded",
+		bounds:      "one failing operation per path from the post-initialisation state; user plugins excluded; also: framework replies whose write fails and is retried, Write-Failed causes of different context failures in sequence, message sequences of 3/4 kinds",
 	})
 	registerCheck(&checkSpec{
 		id: "C07", dirs: []string{"."}, level: "other",
@@ -377,7 +377,7 @@ func init() {
 		},
 		assumptions: rootAssume,
 		explanation: "solver-chosen histories over {accept, SetID (fresh or colliding id), local close, remote close, traffic} on up to 3 sessions through the real ServeConn/newSession/SetID/SessionHub/Close/closeLocked/readDisconnected/write; after every step the index, health, close notification, fail-fast behaviour and disconnect-hook count are compared with a reference model kept by the harness; accept hooks that rename and/or reject",
-		bounds:      "histories of length <= 4 (quick) / 5 (thorough), <= 3 sessions, id alphabet of 2; quiescent points only (no concurrent close/EOF races)",
+		bounds:      "histories of length <= 4 (quick) / 5 (thorough), <= 3 sessions, id alphabet of 2; quiescent points only (no concurrent close/EOF races); also: Dial with solver-chosen outcome of every attempt and hook verdict (budget 0-2), ModifySocket, reader parked inside a frame while Close completes, Close waiting for a handler while the connection is lost, session histories of 4/5 events",
 	})
 	registerCheck(&checkSpec{
 		id: "C09", dirs: []string{"."}, level: "other",
@@ -419,7 +419,7 @@ func init() {
 		},
 		assumptions: rootAssume,
 		explanation: "plugin containers are built by the real AppendLeft/AppendRight/SubRoute/reg/cloneAndAppendMiddle/refresh code (slice growth modelled exactly as runtime.growslice, so aliasing of backing arrays is reproduced); one CALL to one of two sibling routes with a solver-chosen vetoing (plugin, stage) and symbolic veto status; the recorded hook trace must be a subsequence of the documented order restricted to global + matched chain",
-		bounds:      "<= 2 global-left, <= 1 global-right (+1 appended late), group depth <= 2, 2 sibling routes with handler-level plugins; hooks that do not fire are not demanded (upper bound only)",
+		bounds:      "<= 2 global-left, <= 1 global-right (+1 appended late), group depth <= 2, 2 sibling routes with handler-level plugins; hooks that do not fire are not demanded (upper bound only); also: message retried after a redial, reply readable during the post-write hooks, hooks at most once per stage on the fallback-reply path",
 	})
 	registerCheck(&checkSpec{
 		id: "C10", dirs: []string{"."}, level: "other",
@@ -439,7 +439,7 @@ func init() {
 		},
 		assumptions: append(append([]string{}, rootAssume...), "identifiers are ASCII [A-Za-z0-9_]; reflection-based extraction of methods from controller structs (makeCallHandlersFromStruct etc.) is not executed: registration is checked from SubRouter.reg downward", "erpc.Fatalf ends the path (it exits the process)"),
 		explanation: "the real mappers (toServiceMethods, goutil.SnakeString, strings.Replace/ToLower/Trim, path.Join) are executed on symbolic identifiers; the real reg/getCall/getPush/bindCall/bindPush with symbolic requested names (map lookup forks on byte-wise equality with the registered keys); conflicts must reach Fatalf",
-		bounds:      "identifiers <= 3 (quick) / 6 (thorough) bytes, 3 registrations, requested name length within +-1 of a registered name",
+		bounds:      "identifiers <= 3 (quick) / 6 (thorough) bytes, 3 registrations, requested name length within +-1 of a registered name; also: one struct controller (3 methods), one function handler and one push controller through the real reflection builders; push registration under an early sub-router; unknown-handler (re)installed after a session exists",
 	})
 	registerCheck(&checkSpec{
 		id: "C16", dirs: []string{"plugin/auth"}, level: "other",
@@ -473,7 +473,7 @@ func init() {
 		},
 		assumptions: append(append([]string{}, rootAssume...), "canonical checker (calls RecvOnce once, compares a one-byte token); handlers are the unknown-call/unknown-push handlers (no reflection-based routes)"),
 		explanation: "the real ServeConn, newSession, postAccept, auth checker PostAccept, PreReceive/PreSend and raw Unpack are executed on a scripted connection whose first bytes are an AUTH_CALL with symbolic token, a CALL, a frame of symbolic type, an arbitrary symbolic byte string or nothing, optionally followed by pipelined CALL/PUSH frames; handler and per-message hook counters must stay zero unless authentication succeeded",
-		bounds:      "first frame / <= 6 (quick) 8 (thorough) arbitrary bytes (message size limit 24 for that case), 2 pipelined frames, one other accept plugin before or after the checker",
+		bounds:      "first frame / <= 6 (quick) 8 (thorough) arbitrary bytes (message size limit 24 for that case), 2 pipelined frames, one other accept plugin before or after the checker; also: a verifier that names the session (SetID) before deciding, a verifier that receives again after a failed receive",
 	})
 	registerCheck(&checkSpec{
 		id: "C18", dirs: []string{"plugin/overloader"}, level: "other",
@@ -491,7 +491,7 @@ func init() {
 		},
 		assumptions: append(append([]string{}, rootAssume...), "time.Ticker never fires by itself: refill ticks are explicit calls of updateToken", "concurrency harnesses explore all schedules with <= 2 pre-emptions at sync/atomic operations (sequentially consistent)"),
 		explanation: "connection limit: solver-chosen histories of accepted/rejected/closed connections through the real ServeConn + overloader hooks; races: two concurrent PostAccept for the last slot and k concurrent take() against one refill tick explored over all schedules with <= 2 pre-emptions (schedule choices are decisions of the symbolic execution); rate limit: sequential take/refill arithmetic",
-		bounds:      "N <= 2, histories <= 4 (quick) / 5, 2 racing accepts, <= 5 takers + 1 tick, <= 2 pre-emptions",
+		bounds:      "N <= 2, histories <= 4 (quick) / 5, 2 racing accepts, <= 5 takers + 1 tick, <= 2 pre-emptions; also: rate limit through a session with another header plugin after the overloader, inductive bucket step (limit <= 1000, 4 interval choices, 4/7 solver-chosen take/tick steps), per-handler limits, run-time lowering of the connection limit, slot accounting after Close+loss",
 	})
 	registerCheck(&checkSpec{
 		id: "C13", dirs: []string{"."}, level: "other",
@@ -506,7 +506,7 @@ func init() {
 		},
 		assumptions: append(append([]string{}, rootAssume...), "dial hook (overlay H-dial): one line inserted at the top of Dialer.dialOne of the current /repo/dialer.go consults a harness hook; each dial attempt's outcome and each redial hook verdict is a solver variable; redial intervals (time.Sleep) are no-ops; unlimited budget capped at 8 attempts"),
 		explanation: "the real peer.Dial (redial closure), redialForClient, dialWithRetry, redialCounter, readDisconnected, write and AsyncCall retry loops are executed; connection loss while a call is in flight; every dial attempt outcome and hook verdict symbolic (forked); no-hang is a scheduler-level check (a blocked goroutine with no runnable one is a violation)",
-		bounds:      "redial budget 1, 2 (and unlimited capped at 8 attempts in thorough); one loss, one later call; sequential schedules",
+		bounds:      "redial budget 1, 2 (and unlimited capped at 8 attempts in thorough); one loss, one later call; sequential schedules; also: unlimited budget explored up to 8 attempts, loss while a call is inside its pre/post-write hook, two or three outages each using the whole budget",
 	})
 	registerCheck(&checkSpec{
 		id: "C17", dirs: []string{"plugin/secure", "."}, level: "other",
@@ -531,7 +531,7 @@ func init() {
 		},
 		assumptions: append(append([]string{}, rootAssume...), "stub S-AES: goutil.AESEncrypt yields fresh ciphertext symbols (hex alphabet) unrelated to the plaintext; AESDecrypt of exactly those symbols with the same key returns the plaintext, with another key an error; 'not in clear on the wire' is structural (no byte of the written frame depends on a plaintext symbol)", "stub S-HASH: MD5 of the (concrete) key computed natively", "envelope marshalled by the gogo-generated Encrypt.Marshal/Unmarshal (interpreted) through the protobuf body codec; arguments/results are raw byte slices"),
 		explanation: "the nine hooks of the secure plugin and the surrounding real AsyncCall/Push/bindCall/handleCall/bindReply/handleReply plumbing are executed on two peers whose frames the harness carries between scripted connections; marker matrix (secure x accept-secure), same/different key, push during redial",
-		bounds:      "bodies <= 3 bytes; one call/push per path; AES and MD5 internals outside the claim",
+		bounds:      "bodies <= 3 bytes; one call/push per path; AES and MD5 internals outside the claim; also: another plugin registered after the secure plugin, wrong key in the reply direction, handler reporting success with an explicit OK status, secure call followed by an unmarked call with/without session swap data",
 	})
 	registerCheck(&checkSpec{
 		id: "C11", dirs: []string{"codec"}, level: "other",
@@ -562,7 +562,7 @@ func init() {
 		},
 		assumptions: append(append([]string{}, stdAssumptions...), "reflect is the engine's model (types from go/types; addressable values; the subset used by the plain and form codecs)", "json, xml and protobuf codecs are three-line delegations to reflection/table-driven library encoders and are outside the claim; the thrift codec is executed (apache thrift TBinaryProtocol interpreted) on a hand-written TStruct (string + i32); floats excluded"),
 		explanation: "the real PlainCodec and FormCodec (formatProperType/parseProperType, setStructToForm/mapFormToStruct/setWithProperType, url.Values.Encode/url.ParseQuery interpreted) are executed on symbolic values and on arbitrary symbolic input bytes; round trip incl. element order, no panic leaving the codec, and independence of the decoded value from the input buffer are SMT-checked assertions",
-		bounds:      "plain: string/named string/[]byte/named bytes (<= 1-3 bytes), bool, int8/32/64, uint8/64; form: struct with string/int8/bool/[]string(<=3)/[2]string/nested struct, one symbolic field group per instance; arbitrary input <= 3 (quick) / 4 bytes",
+		bounds:      "plain: string/named string/[]byte/named bytes (<= 1-3 bytes), bool, int8/32/64, uint8/64; form: struct with string/int8/bool/[]string(<=3)/[2]string/nested struct, one symbolic field group per instance; arbitrary input <= 3 (quick) / 4 bytes; also: thrift codec on a hand-written TStruct (string + i32), encodings unaffected by later encodings (plain/form/thrift), byte-slice destinations that are windows of larger buffers",
 	})
 	registerCheck(&checkSpec{
 		id: "C14", dirs: []string{"."}, level: "other",
@@ -583,7 +583,7 @@ func init() {
 		},
 		assumptions: append(append([]string{}, rootAssume...), "race = two conflicting plain accesses (or a plain and an atomic access) to the same memory cell or Go map, not ordered by happens-before built from: mutex/rwmutex unlock->lock, atomic operations per cell, channel send->receive and close->receive, WaitGroup Done->Wait, goroutine start, sync.Map/goutil.Map and sync.Pool operations; accesses made by harness code are not reported", "races inside stubbed libraries (thrift, websocket, net/http) and in the thrift protocol's byte counters are outside the claim"),
 		explanation: "documented-concurrent operations (swap access, id change vs lookup/enumeration, concurrent calls with reply delivery, push vs reply write vs close, age setters/getters, double close, call vs remote close) run in separate interpreted goroutines of the real code with a vector-clock happens-before race detector over every interpreted load/store/map access; detection is per execution and schedule-independent for the executed paths; selected scenarios additionally explored over schedules with one pre-emption",
-		bounds:      "7 scenarios of 2-3 goroutines plus a call being launched (inside its pre-write hook) while the reader handles the loss of the connection; run-to-block schedule (+ all schedules with 1 pre-emption for listed scenarios); sequentially consistent execution",
+		bounds:      "7 scenarios of 2-3 goroutines plus a call being launched (inside its pre-write hook) while the reader handles the loss of the connection; run-to-block schedule (+ all schedules with 1 pre-emption for listed scenarios); sequentially consistent execution; also: two concurrent id changes, re-asserting the current id vs changing it, two enumerations at once, loss while a call is inside its post-write hook",
 	})
 }
 
